@@ -145,4 +145,19 @@ def readAll (X : Cipher) : Stream → List Bytes → Bytes × Stream
     let (rest, s2) := readAll X s1 cs
     (p ++ rest, s2)
 
+/-- One `Obfuscated2.Read`: the connection delivered `chunk`, possibly together with an error
+(`failed`; e.g. the last bytes with `io.EOF`).  The repaired code decrypts whatever was delivered; the
+pinned code returned early on an error, handing the ciphertext back (fact `readDecryptsWithError`). -/
+def readOne (X : Cipher) (s : Stream) (chunk : Bytes) (failed : Bool) : Bytes × Stream :=
+  if failed ∧ ¬ Facts.C18.readDecryptsWithError then (chunk, s) else s.xor X chunk
+
+/-- `readAll` where the last chunk arrives together with an error iff `errLast`. -/
+def readAllE (X : Cipher) (errLast : Bool) : Stream → List Bytes → Bytes × Stream
+  | s, [] => ([], s)
+  | s, [c] => readOne X s c errLast
+  | s, c :: cs =>
+    let (p, s1) := readOne X s c false
+    let (rest, s2) := readAllE X errLast s1 cs
+    (p ++ rest, s2)
+
 end TdModel.C18
